@@ -473,4 +473,34 @@ end LenientDemo
 
 end LenientSurplus
 
+/-! ## Non-vacuity of the theorems added in rounds 8-9 (hypothesis audit) -/
+
+section AuditR9
+open Clikit.App Clikit.Parser Clikit.Resolver Clikit.Help
+
+/-- a format with one single-valued argument `a`, and the parser state after `x` filled it -/
+private def oneArg : Fmt :=
+  { cmds := [], args := [{ name := "a".toList, required := false, multi := false, ty := .string, nullable := false, default := .scalar .none }],
+    opts := [] }
+private def filled : St := { args := [(.real "a".toList, .one (.tok "x".toList))], opts := [] }
+
+/-- `argsFull` is satisfiable on a non-empty format and not trivially true -/
+example : argsFull oneArg.fargs filled := ⟨by decide, by decide⟩
+example : ¬ argsFull oneArg.fargs St.empty := fun h => absurd h.1 (by decide)
+
+/-- `lenient_surplus_skipped` / `lenient_surplus_run_skipped` applied, hypotheses discharged: with the slot taken, the
+words `extra more` are skipped and `-q`-like tokens behind them meet the same state -/
+example : loop oneArg true 3 ["extra".toList, "more".toList] false filled = loop oneArg true 1 [] false filled :=
+  lenient_surplus_run_skipped oneArg 1 ["extra".toList, "more".toList] [] false filled (by decide) ⟨by decide, by decide⟩
+example : loop oneArg true 2 ("extra".toList :: ["y".toList]) false filled = loop oneArg true 1 ["y".toList] false filled :=
+  lenient_surplus_skipped oneArg 1 "extra".toList ["y".toList] false filled (by decide) ⟨by decide, by decide⟩
+example : step oneArg true "extra".toList [] false filled = .ok (filled, [], false) :=
+  step_surplus oneArg _ _ _ _ (by decide) ⟨by decide, by decide⟩
+example : parseArgument oneArg.fargs true "extra".toList filled = .ok filled :=
+  parseArgument_surplus _ _ _ ⟨by decide, by decide⟩
+/-- the strict parser rejects the same token in the same state -/
+example : (parseArgument oneArg.fargs false "extra".toList filled).toOption = none := by decide
+
+end AuditR9
+
 end Clikit.Props.C09
